@@ -1,6 +1,7 @@
 package gen
 
 import (
+	"encoding"
 	"encoding/json"
 	"errors"
 	"fmt"
@@ -178,6 +179,9 @@ func Scalars() []Named {
 		N("str-html", "<b>&\"'</b>"),
 		// standard-library types at the edge of "numbers and strings"
 		N("json.Number int", json.Number("12")), N("json.Number float", json.Number("2.5e1")), N("json.Number junk", json.Number("x")), N("[]byte", []byte("bytes")), N("[]byte utf-8", []byte("h\u00e9llo \u4e2d\u6587 \U0001F600")), N("[]uint8", []uint8{0xe2, 0x82, 0xac, 'x'}), N("[]rune", []rune("h\u00e9")), N("[4]byte", [4]byte{0xf0, 0x9f, 0x98, 0x80}), N("rune", 'x'), N("byte", byte('y')),
+		// values whose encoders (MarshalJSON, MarshalText) are promoted from an embedded pointer or interface that is nil
+		N("embeds a nil *time.Time", EmbedsTime{}), N("*embeds a nil *time.Time", &EmbedsTime{}), N("embeds a nil json.Marshaler", EmbedsMarshaler{}), N("embeds a nil TextMarshaler", EmbedsTextMarshaler{}),
+		N("holds values that embed a nil *time.Time", HoldsEmbeds{List: []EmbedsTime{{}}, Map: map[string]interface{}{"k": EmbedsMarshaler{}}}), N("[]interface{} of one", []interface{}{EmbedsTime{}}), N("embeds *time.Time", EmbedsTime{func() *time.Time { t := time.Date(2020, 1, 2, 3, 4, 5, 0, time.UTC); return &t }()}),
 		N("error", errors.New("an error")), N("time.Duration", 90*time.Second), N("time.Month", time.March), N("time.Time", time.Date(2021, 3, 4, 5, 6, 7, 0, time.UTC)), N("time.Time zero", time.Time{}),
 		N("*big.Int", big.NewInt(42)), N("big.Float", *big.NewFloat(1.5)), N("url.URL", url.URL{Scheme: "http", Host: "h"}), N("net.IP", net.IP{127, 0, 0, 1}), N("os.FileMode", os.FileMode(0o644)),
 		N("String promoted from a nil pointer 3 levels down", Deep2{}), N("String promoted from a nil pointer 9 levels down", Deep8{}), N("String promoted from a nil pointer 13 levels down", Deep12{}), N("*String promoted from a nil pointer 10 levels down", &Deep9{}),
@@ -437,6 +441,18 @@ type OuterPtr struct {
 	*Inner
 	Extra int
 }
+
+// Values that are encoders (of JSON, of text) through an embedded pointer or interface - which may be nil.
+type (
+	EmbedsTime          struct{ *time.Time }
+	EmbedsMarshaler     struct{ json.Marshaler }
+	EmbedsTextMarshaler struct{ encoding.TextMarshaler }
+	HoldsEmbeds         struct {
+		One  EmbedsTime
+		List []EmbedsTime
+		Map  map[string]interface{}
+	}
+)
 
 // ViaX: an embedded pointer reached through further levels of embedding, by value and by pointer.
 type (
